@@ -111,9 +111,20 @@ def spec_fields_changed(pre, post, spec_roots):
 def run_method(it, st, path, self_val, args, genv=None):
     """call `path(&mut self, args...)`; returns (outcomes, cell_of_self)"""
     cell = st.new_cell(self_val)
-    st2 = it.start(path, [RefV(cell, (), True)] + list(args), genv=genv, state=st)
+    st2 = it.start(path, [receiver_arg(it, path, cell, self_val)] + list(args), genv=genv, state=st)
     outs = it.run(st2)
     return outs, cell
+
+
+def receiver_arg(it, path, cell, self_val):
+    """`&self` / `&mut self` methods get a reference to the cell; a method that takes a `Copy` receiver by value (`fn ramp(self)`)
+    gets a copy of the value (the cell then simply stays as it was: a by-value receiver cannot change the caller's object)"""
+    import copy as _copy
+    f = it.facts.fns.get(it.facts.real('fn', path) if hasattr(it.facts, 'real') else path) or it.facts.fns.get(path)
+    loc = (f or {}).get('locals') or []
+    if f is not None and f.get('arg_count', 0) >= 1 and len(loc) > 1 and loc[1]['ty'].get('k') not in ('ref', 'ptr'):
+        return _copy.deepcopy(self_val)
+    return RefV(cell, (), True)
 
 
 def where_of(facts, path):
